@@ -187,8 +187,13 @@ class BaseAdapterRegistry:
         Subclasses must still call this method.
         """
         self.__dict__['__bases__'] = bases
-        self.ro = ro.ro(self)
+        self._update_ro()
         self.changed(self)
+
+    def _update_ro(self):
+        # Recompute our resolution order from the current ``__bases__``
+        # (ours and those of the registries above us).
+        self.ro = ro.ro(self)
 
     __bases__ = property(lambda self: self.__dict__['__bases__'],
                          lambda self, bases: self._setBases(bases),
@@ -966,6 +971,13 @@ class AdapterRegistry(BaseAdapterRegistry):
 
         super()._setBases(bases)
 
+    def _update_ro(self):
+        super()._update_ro()
+        # Our resolution order is a part of the resolution order of every
+        # registry that is (directly or indirectly) based on us.
+        for sub in tuple(self._v_subregistries.keys()):
+            sub._update_ro()
+
     def changed(self, originally_changed):
         super().changed(originally_changed)
 
@@ -974,7 +986,15 @@ class AdapterRegistry(BaseAdapterRegistry):
 
 
 class VerifyingAdapterLookup(AdapterLookupBase, VerifyingBase):
-    pass
+
+    def changed(self, originally_changed=None):
+        if originally_changed is None:
+            # Called by ``_verify()``: a registry above ours changed without
+            # telling us (verifying registries get no notifications). It may
+            # have been its ``__bases__``, which are part of our registry's
+            # resolution order, so that has to be brought up to date as well.
+            self._registry._update_ro()
+        super().changed(originally_changed)
 
 
 @implementer(IAdapterRegistry)
